@@ -189,6 +189,21 @@ func spell(rnd *rand.Rand, ski string) string {
 }
 
 func spellRaw(rnd *rand.Rand, ski string) string {
+	// whole-string spellings now and then: upper case without any separator (a complete 40 character SKI as a
+	// certificate viewer shows it), upper case with a dash after every byte
+	switch rnd.Intn(6) {
+	case 0:
+		return strings.ToUpper(ski)
+	case 1:
+		var sb strings.Builder
+		for i, c := range strings.ToUpper(ski) {
+			if i > 0 && i%2 == 0 {
+				sb.WriteString("-")
+			}
+			sb.WriteRune(c)
+		}
+		return sb.String()
+	}
 	var sb strings.Builder
 	for i, c := range ski {
 		if rnd.Intn(3) == 0 {
@@ -210,7 +225,8 @@ func runHubScenario(seed int64, maxEv int, port int) *hubScenario {
 	rnd := rand.New(rand.NewSource(seed))
 	log := &obsLog{last: time.Now()}
 	sc := &hubScenario{}
-	keys := []string{"aabb01", "ccdd02", "eeff03"}
+	// SKIs of the real shape: 40 hex characters
+	keys := []string{"aabb01" + strings.Repeat("0a", 17), "ccdd02" + strings.Repeat("1b", 17), "eeff03" + strings.Repeat("2c", 17)}
 	// dial observers
 	ports := map[string]int{}
 	var listeners []net.Listener
@@ -328,6 +344,12 @@ func runHubScenario(seed int64, maxEv int, port int) *hubScenario {
 		// now and then a realistic episode instead of independent events: a connection of an SKI comes up, its
 		// handshake ends one way or another, the connection closes, the service is seen again via mDNS
 		forcedSt := -1
+		if len(script) == 0 && rnd.Intn(14) == 0 {
+			// the user pairs, a connection of the SKI is in the hello phase (or completed), the user changes his mind;
+			// later the service is seen again
+			script = []scripted{{"register", k, -1}, {"connected", k, []int{8, 11, 8, 38}[rnd.Intn(4)]}, {[]string{"cancel", "unregister"}[rnd.Intn(2)], k, -1},
+				{"connclosed", k, -1}, {"report", k, -1}, {"tick", k, -1}}
+		}
 		if len(script) == 0 && rnd.Intn(12) == 0 {
 			ends := []int{16, 39, 14, 15, 17, 38, 13}
 			script = []scripted{{"connected", k, []int{8, 11, 2, 4}[rnd.Intn(4)]}, {"connupdate", k, ends[rnd.Intn(len(ends))]}, {"connclosed", k, -1}, {"report", k, -1}, {"tick", k, -1}}
@@ -339,7 +361,7 @@ func runHubScenario(seed int64, maxEv int, port int) *hubScenario {
 			f := script[0]
 			script = script[1:]
 			k, forcedSt = f.k, f.st
-			choice = map[string]int{"connected": 70, "connupdate": 85, "connclosed": 95, "report": 50, "tick": 65}[f.kind]
+			choice = map[string]int{"connected": 70, "connupdate": 85, "connclosed": 95, "report": 50, "tick": 65, "register": 5, "unregister": 20, "cancel": 28}[f.kind]
 			if f.kind == "connclosed" || f.kind == "connupdate" {
 				if _, ok := conns[k]; !ok {
 					script = nil
